@@ -520,6 +520,51 @@ impl FilterAny {
     }
 }
 
+#[cfg(olson_sean_k_wax_verif)]
+impl FilterAny {
+    /// Gets the text of the exhaustive and nonexhaustive programs (verification hook).
+    pub fn verif_patterns(&self) -> (Option<String>, Option<String>) {
+        use FilterAnyProgram::{Empty, Exhaustive, Nonexhaustive, Partitioned};
+
+        match self.program {
+            Empty => (None, None),
+            Exhaustive(ref exhaustive) => (Some(exhaustive.as_str().into()), None),
+            Nonexhaustive(ref nonexhaustive) => (None, Some(nonexhaustive.as_str().into())),
+            Partitioned {
+                ref exhaustive,
+                ref nonexhaustive,
+            } => (
+                Some(exhaustive.as_str().into()),
+                Some(nonexhaustive.as_str().into()),
+            ),
+        }
+    }
+}
+
+#[cfg(olson_sean_k_wax_verif)]
+impl<'t> Glob<'t> {
+    /// Gets the root, the pivot and the text of the component programs of a walk (verification
+    /// hook).
+    pub fn verif_walk_programs(&self, path: impl Into<PathBuf>) -> (PathBuf, usize, Vec<String>) {
+        let anchor = self.anchor(path);
+        let components = if self.is_empty() {
+            vec![]
+        }
+        else {
+            WalkProgram::compile::<Tokenized<_>>(self.tree.as_ref())
+                .expect("failed to compile walk program")
+        };
+        (
+            anchor.root,
+            anchor.pivot,
+            components
+                .iter()
+                .map(|component| component.as_str().into())
+                .collect(),
+        )
+    }
+}
+
 /// Describes a file with a path matching a [`Glob`] in a directory tree.
 ///
 /// See [`Glob::walk`].
